@@ -161,8 +161,10 @@ def search(ctx):
                 own = sorted({n.value for n in _ast.walk(_ast.parse(open(mod.__file__).read())) if isinstance(n, _ast.Constant) and isinstance(n.value, str) and n.value.startswith("-") and " " not in n.value and len(n.value) < 30})
             except Exception:  # noqa: BLE001
                 own = []
+            longs = [o for o in own if o.startswith("--") and len(o) > 4]
+            abbrevs = sorted({o.split("=")[0][:k] for o in longs for k in range(3, len(o.split("=")[0]))} | {"--v", "--ve", "--ver", "--h", "--he", "--o", "--out", "--f", "--t"})
             for _ in range(per):
-                words = [r.pick(own) if own and r.chance(0.6) else r.pick(generic) for _ in range(r.randint(1, 4))]
+                words = [r.pick(abbrevs) + r.pick(["", "", "=x"]) if r.chance(0.25) else r.pick(own) if own and r.chance(0.6) else r.pick(generic) for _ in range(r.randint(1, 4))]
                 cmd = cmdname + " " + " ".join(shlex.quote(x) if not x.startswith("'") else x for x in words)
                 if r.chance(0.2):
                     cmd = "cat f | " + cmd
